@@ -3,6 +3,7 @@ mod closures;
 mod crash;
 mod engines;
 mod expert;
+mod limits;
 mod mapeng;
 mod xplan;
 mod exec;
